@@ -21,7 +21,7 @@ func main() {
 	if pf := os.Getenv("VERIF_PPROF"); pf != "" {
 		if f, err := os.Create(pf); err == nil {
 			_ = pprof.StartCPUProfile(f)
-			go func() { time.Sleep(25 * time.Second); pprof.StopCPUProfile(); f.Close() }()
+			go func() { time.Sleep(100 * time.Second); pprof.StopCPUProfile(); f.Close() }()
 		}
 	}
 	if *child != "" {
